@@ -41,23 +41,23 @@ def r1(ctx):
     for b, si, st in field_writes(bd, "unsolicited"):
         if not (st.dest.ty and "UnsolicitedState" in st.dest.ty):
             continue
-        e = sym.rvalue_expr(st.rv)
-        gs = ctx.guards_at(bd, b.idx)
-        null_arm = any(g.kind == "is" and g.name == "NullRequired" for g in gs)
-        if e[0] == "agg" and e[2] == "Ready":
-            inner = agg_field(e, "0")
-            if inner[0] == "agg" and inner[2] == "None":
-                if null_arm:
-                    ctx.require_guards(bd, b.idx, [("null series Confirmed", g_is(lambda x: mentions_call(x, r"perform_null_unsolicited$"), "Confirmed"))], "Ready(None)@null", "leaving the start-up state")
+        # one (guards, value) pair per arm when the stored value is computed by a `match` in front of a single store
+        for gs, e, vb in value_arms(ctx, bd, sym, sym.rvalue_expr(st.rv), b.idx):
+            null_arm = any(g.kind == "is" and g.name == "NullRequired" for g in gs)
+            if e[0] == "agg" and e[2] == "Ready":
+                inner = agg_field(e, "0")
+                if inner[0] == "agg" and inner[2] == "None":
+                    if null_arm:
+                        ctx.require_guards(bd, vb, [("null series Confirmed", g_is(lambda x: mentions_call(x, r"perform_null_unsolicited$"), "Confirmed"))], "Ready(None)@null", "leaving the start-up state")
+                    else:
+                        ctx.require_guards(bd, vb, [("data series Confirmed", g_is(lambda x: mentions_call(x, r"maybe_perform_unsolicited$"), "Confirmed"))], "Ready(None)@data", "Ready(None) after data")
                 else:
-                    ctx.require_guards(bd, b.idx, [("data series Confirmed", g_is(lambda x: mentions_call(x, r"maybe_perform_unsolicited$"), "Confirmed"))], "Ready(None)@data", "Ready(None) after data")
+                    ctx.check(mentions_call(inner, r"new_unsolicited_retry_deadline$"), "Ready(Some)@failed", "retry deadline = %s" % expr_str(inner), bd.where(vb))
+                    ctx.check(not null_arm, "Ready(Some)@not-null-arm", "a retry deadline is armed only for data series", bd.where(vb))
+            elif e[0] == "agg" and e[2] == "NullRequired":
+                ctx.check(null_arm, "NullRequired@null-arm", "stays NullRequired only inside the NullRequired arm", bd.where(vb))
             else:
-                ctx.check(mentions_call(inner, r"new_unsolicited_retry_deadline$"), "Ready(Some)@failed", "retry deadline = %s" % expr_str(inner), bd.where(b.idx))
-                ctx.check(not null_arm, "Ready(Some)@not-null-arm", "a retry deadline is armed only for data series", bd.where(b.idx))
-        elif e[0] == "agg" and e[2] == "NullRequired":
-            ctx.check(null_arm, "NullRequired@null-arm", "stays NullRequired only inside the NullRequired arm", bd.where(b.idx))
-        else:
-            ctx.bad("unsolicited-state-write", "unexpected state write %s" % expr_str(e), bd.where(b.idx))
+                ctx.bad("unsolicited-state-write", "unexpected state write %s" % expr_str(e), bd.where(vb))
     nb = prog.body("SessionState::new")
     for b, si, st in agg_sites(nb, r"session::SessionState$"):
         f = agg_field(ctx.sym(nb).rvalue_expr(st.rv), "unsolicited")
@@ -155,20 +155,40 @@ def r4(ctx):
     reps = call_sites(sb, r"OutstationSession::repeat_unsolicited$")
     if len(reps) != 1:
         raise AnchorError("series: repeat site")
-    gs = ctx.guards_at(sb, reps[0].idx)
-    ctx.require_guards(sb, reps[0].idx, [("wait result is Timeout", g_is(lambda x: mentions_call(x, r"wait_for_unsolicited_confirm$"), "Timeout")), ("retry == true", g_bool(lambda x: x[0] == "var" and x[1] == "retry", True))], "retry", "unsolicited retry")
-    # `retry` is decrement() then forced false when a read is deferred
-    rl = sb.local_by_name("retry")
-    defs = [(blk, si) for l in rl for blk, si in sb.defs.get(l, [])]
-    exprs = [ss.def_expr(blk, si) for blk, si in defs]
-    ctx.check(any(mentions_call(e, r"RetryCounter::decrement$") for e in exprs), "retry:from-decrement", "retry <- RetryCounter::decrement()", sb.where(line=sb.line))
-    forced = [(blk, si) for (blk, si), e in zip(defs, exprs) if e[0] == "const" and e[1] == 0]
-    ctx.check(len(forced) == 1, "retry:forced-false", "retry forced false once", sb.where(line=sb.line))
-    for blk, si in forced:
-        ctx.require_guards(sb, blk, [("deferred_read.is_set()", g_bool(lambda x: mentions_call(x, r"DeferredRead::is_set$"), True))], "retry:deferred-read", "retry = false")
-    # !retry returns Timeout
-    for b, si, st in agg_sites(sb, r"session::UnsolicitedResult$", "Timeout"):
-        ctx.require_guards(sb, b.idx, [("retry == false", g_bool(lambda x: x[0] == "var" and x[1] == "retry", False))], "series:Timeout", "UnsolicitedResult::Timeout")
+    # a retransmission happens only after a confirm timeout, while the retry counter still allowed one (decrement() returned true) and
+    # no READ is deferred. Stated over the conditions themselves, so `let mut retry = decrement(); if is_set() { retry = false }` and
+    # `let retry = decrement() && !is_set()` are the same thing (GuardIndex resolves the flag either way).
+    ctx.require_guards(
+        sb,
+        reps[0].idx,
+        [
+            ("wait result is Timeout", g_is(lambda x: mentions_call(x, r"wait_for_unsolicited_confirm$"), "Timeout")),
+            ("RetryCounter::decrement() == true", g_bool(lambda x: mentions_call(x, r"RetryCounter::decrement$"), True)),
+        ],
+        "retry",
+        "unsolicited retry",
+    )
+    ctx.require_guards(sb, reps[0].idx, [("deferred_read.is_set()", g_bool(lambda x: mentions_call(x, r"DeferredRead::is_set$"), False))], "retry:deferred-read", "unsolicited retry")
+    # one decrement per timeout, unconditional within the Timeout arm, before the decision
+    decs = call_sites(sb, r"RetryCounter::decrement$")
+    tos = agg_sites(sb, r"session::UnsolicitedResult$", "Timeout")
+    ctx.check(len(decs) == 1 and len(tos) >= 1, "retry:from-decrement", "one RetryCounter::decrement() per confirm timeout", sb.where(line=sb.line))
+    if len(decs) == 1:
+        tg = [g for g in ctx.guards_at(sb, decs[0].idx) if not (g.kind == "is" and g.name in ("Timeout", "Continue", "Ready"))]
+        arms = arm_edges(ctx, sb, g_is(lambda x: mentions_call(x, r"wait_for_unsolicited_confirm$"), "Timeout"))
+        ctx.check(len(arms) == 1 and sb.edge_dominates(arms[0].edge, decs[0].idx) and not [g for g in tg if g.edge and sb.edge_dominates(arms[0].edge, g.edge[0])], "retry:forced-false", "decrement() is unconditional in the Timeout arm (the counter is charged even when a deferred READ ends the series)", sb.where(decs[0].idx))
+        for b, si, st in tos:
+            ctx.check(sb.block_dominates(decs[0].idx, b.idx), "series:Timeout:after-decrement", "giving up follows the decrement", sb.where(b.idx))
+    # giving up is the other side of the test that allows the retransmission
+    rg = [g for g in ctx.gi(sb).dominating(reps[0].idx) if g.kind == "bool" and g.truth is True and g.edge]
+    for b, si, st in tos:
+        ok = False
+        for g in rg:
+            S = g.edge[0]
+            for t2 in sb.succs(S):
+                if t2 != g.edge[1] and sb.edge_dominates((S, t2), b.idx):
+                    ok = True
+        ctx.check(ok, "series:Timeout|retry == false", "UnsolicitedResult::Timeout is returned exactly when the retry test fails", sb.where(b.idx))
     # RetryCounter::decrement table
     db = prog.body("RetryCounter::decrement")
     ds = ctx.sym(db)
@@ -233,8 +253,12 @@ def r7(ctx):
             raise AnchorError("wait_for_unsolicited_confirm: %s arm" % var)
         region = region_of(bd, arms[0])
         clears = {b.idx for b in call_sites(bd, r"DeferredRead::clear$") if b.idx in region}
-        rets = [b.idx for b, si, st, e in ret_sites(bd, ctx.sym(bd)) if b.idx in region and e[0] == "agg" and e[2] == "Ok"]
-        ok = bool(clears) and bool(rets) and all(not bd.can_reach(arms[0].edge[1], r, removed_blocks=clears) for r in rets)
+        # every non-error way out of the arm (a return inside it, or leaving it towards a common `Ok(result)`) passes the clear
+        errs = error_exit_blocks(bd)
+        exits = sorted({s_ for b_ in region for s_ in bd.cfg[0][b_] if s_ not in region})
+        rets = [r for r in return_blocks(bd) if r in region] + [b.idx for b, si, st, e in ret_sites(bd, ctx.sym(bd)) if b.idx in region and e[0] == "agg" and e[2] == "Ok"]
+        tgt = exits + rets
+        ok = bool(clears) and bool(tgt) and all(not bd.can_reach(arms[0].edge[1], r, removed_blocks=clears | errs) for r in tgt)
         ctx.check(ok, "defer:cleared-by-%s" % var, "a %s supersedes the deferred READ on every non-error path" % var, bd.where(arms[0].edge[1]), bad_detail="%s arm can complete without DeferredRead::clear: a superseded READ is still answered later" % var)
     # TransportRequest::Error also supersedes
     ea = arm_edges(ctx, bd, g_is(lambda x: mentions_call(x, r"RequestGuard::get$"), "Error"))
